@@ -43,7 +43,7 @@ type Profile struct {
 	HTTP        bool   `json:",omitempty"` // HTTP GET / HEAD / POST requests (temporary connections) besides the WebSocket clients
 	ResetFaults bool   `json:",omitempty"` // get requests for resources that did not change silently may fail (re-fetches of resets included)
 	Legacy      bool   `json:",omitempty"` // some clients negotiate protocol 1.2.0 / 1.1.1 or send no version request
-	Once        bool   `json:",omitempty"` // the fragment modelled by Comp/Core.v: one resource without references, verdicts fixed per connection, no request after a denial; the state the service starts from is noted in the trace
+	Once        bool   `json:",omitempty"` // the fragment modelled by Comp/Core.v: one resource without references, verdicts drawn per connection and token, a refused client asks again only after a quiescent point; the state the service starts from is noted in the trace
 	Scenario    string `json:",omitempty"` // phase-structured histories (scenario.go) instead of independent random stimuli
 }
 
@@ -353,7 +353,7 @@ func (x *Explorer) answerFor(q *gw.Req) gw.Action {
 				CID string `json:"cid"`
 			}
 			json.Unmarshal(q.Payload, &pc)
-			pol = x.policy("/"+pc.CID, rest)
+			pol = x.policy(string(pl.Token)+"/"+pc.CID, rest)
 		}
 		switch {
 		case fault && x.R.Intn(2) == 0:
@@ -574,18 +574,9 @@ func (x *Explorer) clientFrame(c *gw.Client) (gw.Action, bool) {
 		rid = "test.long" + strings.Repeat("x", 4085+x.R.Intn(12))
 	}
 	key := c.Label + " " + rid
-	if x.P.Once {
-		// the fragment of Comp/Core.v: a connection whose request was denied asks no more (its verdict is fixed per connection)
-		if x.onceDone == nil {
-			x.onceDone = map[string]bool{}
-		}
-		if x.onceDone[key] {
-			x.nextID[c.Label]--
-			return gw.Action{}, false
-		}
-		if pol := x.policy("/"+x.Run.W.CIDs()[c.Label], rid); pol.deny != 0 {
-			x.onceDone[key] = true
-		}
+	if x.P.Once && x.onceDone[c.Label] {
+		x.nextID[c.Label]--
+		return gw.Action{}, false
 	}
 	kinds := []string{"subscribe", "subscribe", "subscribe"}
 	if x.P.Unsub {
@@ -671,6 +662,13 @@ func (x *Explorer) httpRequest() {
 func (x *Explorer) noteResponses(from int) {
 	for _, l := range x.Run.Lines[from:] {
 		f := strings.Split(l, "\t")
+		if x.P.Once && ((f[0] == "RESP" && len(f) >= 5 && f[3] == "err" && f[4] == "system.accessDenied") || (f[0] == "EV" && len(f) >= 4 && f[3] == "unsub")) {
+			// the fragment of Comp/Core.v: a client that was refused asks again only after the next quiescent point
+			if x.onceDone == nil {
+				x.onceDone = map[string]bool{}
+			}
+			x.onceDone[f[1]] = true
+		}
 		if f[0] == "RESP" && len(f) >= 3 {
 			if key, ok := x.reqOf[f[1]+" "+f[2]]; ok {
 				x.outstanding[key]--
@@ -682,6 +680,7 @@ func (x *Explorer) noteResponses(from int) {
 
 func (x *Explorer) quiesce(label string) {
 	if x.Run.W.Quiescent() {
+		x.onceDone = nil
 		lines := append([]string{"Q\t" + label}, x.truthLines()...)
 		lines = append(lines, x.Run.Snapshot()...)
 		lines = append(lines, "ENDQ")
@@ -851,7 +850,11 @@ func Explore(seed int64, p Profile) (run *gw.Run, stall error) {
 			c := live[x.R.Intn(len(live))]
 			switch x.R.Intn(5) {
 			case 0:
-				x.tokenResetEvent()
+				if x.P.Once {
+					x.tokenEvent(c, x.R.Intn(3), true)
+				} else {
+					x.tokenResetEvent()
+				}
 			case 1:
 				x.tokenEvent(c, x.R.Intn(3), false)
 			default:
